@@ -16,7 +16,7 @@ ASSUMPTIONS = [
     "tolerance 1e-9 mm; net-irrigation requirement (strategy 4) may be as low as -0.01 mm x number of compartments (root-zone bookkeeping rounding stated in the property)",
     "'outside a growing season' = rows with days-after-planting 0",
 ]
-BUDGET = {"quick": 280, "thorough": 5000}
+BUDGET = {"quick": 420, "thorough": 5000}
 DENSE = ["Cotton", "CottonGDD", "DryBean", "DryBeanGDD", "Soybean", "SoybeanGDD", "SugarBeet", "SugarBeetGDD", "Sunflower", "SunflowerGDD"]
 ALL = list(gen.CROPS)
 PROFILE = gen.profile(crops=DENSE * 3 + ALL, p_override=0.5, seasons=(1, 2), max_days=800, p_bunds=0.5, p_mulch=0.5, p_fm=0.7,
